@@ -221,7 +221,8 @@ def random_case(rng, maxlen):
             if (off * 2) % 2 == 1 and off.denominator == 2:
                 off += Fraction(1, 4)          # never exactly half-way
             t = now[qi] + off * dt
-            ops.append(["add", qi, str(t), rng.below(nrx), str(rng.choice([1, 1, 1, 2, 3]))])
+            # (now and then a crowded cell: dozens of pending occurrences of one reaction in one slot)
+            ops.append(["add", qi, str(t), rng.below(nrx), str(rng.choice([1, 1, 1, 2, 3, 25, 40]))])
         elif k < 80:
             ops += [["read", qi], ["advance", qi]]
             now[qi] += dt
@@ -230,7 +231,7 @@ def random_case(rng, maxlen):
         elif k < 91 and nq < 6:
             ops.append(["copy", qi]); now[nq] = now[qi]; nq += 1
         elif k < 96 and nq < 6:
-            ops.append(["partition", qi, str(rng.choice([Fraction(1, 2), Fraction(1, 4), Fraction(3, 4)]))])
+            ops.append(["partition", qi, str(rng.choice([Fraction(1, 2), Fraction(1, 4), Fraction(3, 4), Fraction(1, 16), Fraction(15, 16)]))])
             now[nq] = now[qi]; now[nq + 1] = now[qi]; nq += 2
         elif k < 98:
             t = Fraction(rng.randint(-4, 12), 4)
